@@ -65,6 +65,7 @@ type Config struct {
 	NoNormHeaders bool `json:"disable_header_names_normalizing"`
 	NoNormPath    bool `json:"disable_path_normalizing"`
 	Proxy         bool `json:"via_proxy"`
+	ReuseResp     bool `json:"one_response_object_for_all_exchanges"`
 }
 
 type pieceReader struct {
@@ -464,6 +465,9 @@ func checkCase(c *Case) string {
 	if c.Cfg.Proxy {
 		cl.HC.ProxyURI = protocol.ParseURI("http://proxy.example:3128")
 	}
+	if c.Cfg.ReuseResp {
+		cl.Resp = &protocol.Response{}
+	}
 	defer cl.HC.CloseIdleConnections()
 	consumed := map[*sconn.Reactive]int{}
 	reused := 0
@@ -626,10 +630,11 @@ func genCase(t *rapid.T) *Case {
 	}
 	c.Cfg.NoNormHeaders = rapid.IntRange(0, 4).Draw(t, "noNormHeaders") == 0
 	c.Cfg.Proxy = rapid.IntRange(0, 5).Draw(t, "proxy") == 0
+	c.Cfg.ReuseResp = rapid.IntRange(0, 2).Draw(t, "reuseResponseObject") == 0
 	k := rapid.IntRange(1, 5).Draw(t, "nExchanges")
 	for i := 0; i < k; i++ {
 		ex := &exchange{Req: genReq(t, i), API: rapid.IntRange(0, 1).Draw(t, "api")}
-		ex.Resp = gen.GenResp(t, i, ex.Req.Method, gen.RespOpts{Fold: false, FoldTrailers: true, UntilClose: true})
+		ex.Resp = gen.GenResp(t, i, ex.Req.Method, gen.RespOpts{Fold: false, FoldTrailers: true, UntilClose: true, ChunkExt: true, OtherInterim: true})
 		if ex.Resp.BodyLen > 30000 {
 			ex.Resp.Body, ex.Resp.BodyLen = ex.Resp.Body[:30000], 30000
 			for j := range ex.Resp.Lines {
@@ -660,6 +665,9 @@ func classify(c *Case) (bool, []string) {
 	}
 	if c.Cfg.Proxy {
 		cls = append(cls, "via-proxy")
+	}
+	if c.Cfg.ReuseResp {
+		cls = append(cls, "one-response-object-reused")
 	}
 	for i, ex := range c.Ex {
 		cls = append(cls, "req-"+ex.Req.BodyMode, "resp-"+ex.Resp.Framing.String())
